@@ -1,5 +1,29 @@
-import RSV.Model.LeoCert
-/-! umbrella for the C04 check; the proved property files are imported as they land -/
+import RSV.Props.C04
+import RSV.Props.Consts
+/-!
+# C04 umbrella — Leopard Encode
+
+Structural theorems about the schedule interpreter are in `RSV.Props.C04` (symbol-locality ⇒ any
+chunking, xor-linearity, scratch independence, for arbitrary step lists).  Field and table facts
+for GF(2^8) are in `RSV.Props.C17leo`, the MDS certificate in `RSV.Props.C01leo`.  What ties the
+schedule *generators* to the Lin–Chung–Han transform is the per-configuration equality of the
+generated matrix with the Lagrange closed form, checked by the driver (flag `l0`) — an executed
+check, not a theorem.
+-/
 namespace RSV.Props.C04all
-theorem C04_placeholder : True := trivial
+open RSV.Model.Leo RSV.Proofs.LeoSched RSV.Props.C04
+
+/-- the 32 KiB work chunk of the GF(2^8) codec is a multiple of 64 bytes, the size Encode insists on -/
+theorem C04_chunk_constants : RSV.Gen.workSize8 = 32768 ∧ RSV.Gen.workSize8 % 64 = 0 ∧ RSV.Gen.inversion8Bytes * 8 = RSV.Gen.order8 :=
+  RSV.Props.Consts.leopard_constants
+
+/-- chunking cannot change a symbol: encoding a shard set cut in two (at any symbol boundary) and
+concatenating the results equals encoding it whole — for every configuration whose schedule
+addresses rows in range (decided per configuration by the driver: flag `sched`) -/
+theorem C04_chunk_independent (C : Ctx) (d p l₁ l₂ : Nat) (s₁ s₂ : Array Vec)
+    (h₁ : WF l₁ s₁) (h₂ : WF l₂ s₂) (hs : s₁.size = s₂.size)
+    (hr : ∀ s ∈ (encodeSched C d p).toList, InRange (2 * ceilPow2 p) s₁.size s) :
+    encode C d p (l₁ + l₂) (rowsAppend s₁ s₂) = rowsAppend (encode C d p l₁ s₁) (encode C d p l₂ s₂) :=
+  C04_encode_chunking C d p h₁ h₂ hs hr
+
 end RSV.Props.C04all
